@@ -1,5 +1,5 @@
 (* C03 -- re-encoding a decoded message is stable, and byte-exact for canonical input. *)
-From NV Require Import Lib.Base Codec.Lang Codec.Def Codec.Sem Codec.Total Codec.Dispatch Codec.GenDefs Codec.WF Codec.RoundTrip Codec.DecodeWF Codec.Final
+From NV Require Import Lib.Base Codec.Lang Codec.Def Codec.Sem Codec.Total Codec.Dispatch Codec.GenDefs Codec.WF Codec.RoundTrip Codec.DecodeWF Codec.Stmt Codec.StmtProofs Codec.Final
   Gen.GenMsgs Gen.GenTypes.
 From Coq Require Import String.
 Open Scope N_scope.
@@ -46,8 +46,14 @@ Example C03_example :
   end.
 Proof. vm_compute. eexists. split; reflexivity. Qed.
 
+(* on the transliterated programs run statement by statement (Codec/Stmt.v) *)
+Theorem C03_stable_programs : forall g bs m, In g all_msgs -> bytes_ok bs -> exec_dec nas_types g bs = Ok m ->
+  exists bs', exec_enc nas_types g m = Ok bs' /\ exec_dec nas_types g bs' = Ok m.
+Proof. exact program_reencode_stable. Qed.
+
 Print Assumptions C03_decode_wf.
 Print Assumptions C03_stable.
 Print Assumptions C03_fixed_point.
 Print Assumptions C03_canonical_exact.
 Print Assumptions C03_all_defs_ok.
+Print Assumptions C03_stable_programs.
